@@ -58,8 +58,56 @@ from prompt_toolkit.output import DummyOutput
 
 ID = "C04"
 DRIVER = "drv_c04"
-PROPS = ["Ptk.Props.C04", "Ptk.Props.C04Rule"]
+PROPS = ["Ptk.Props.C04", "Ptk.Props.C04Rule", "Ptk.Props.C04F", "Ptk.Props.C04KB"]
 SERIAL = False
+TECHNIQUE = "Lean 4 proof about an executable model + differential correspondence + property oracle"
+LEVEL_TEXT = ("Lean 4 theorems over an executable model of KeyProcessor._process / process_keys (generic in the "
+              "key-binding object, the filters and the handlers), of KeyBindings with its version-invalidated "
+              "lookup caches, of the four wrappers and of the filter algebra with its memo dictionaries: "
+              "conservation of keys for every run, reset after a raising handler, the dispatch rule stated "
+              "declaratively (wait / eager / most-specific-last-registered / longest prefix / drop), queue order, "
+              "and/or/invert normalisation preserves meaning in every reachable heap, cached lookups equal the "
+              "uncached ones after any add/remove/lookup interleaving; the model is tied to /repo on every run by a "
+              "differential correspondence (exhaustive small scopes + seeded random scenarios through real "
+              "KeyBindings / wrappers / KeyProcessor inside an Application) and an independent oracle")
+LEVEL_NOTE = ("trusted: Lean kernel, axioms propext/Classical.choice/Quot.sound only; the hand-written model "
+              "(validated by the correspondence, not proved equal to the Python); the dispatch theorem assumes "
+              "lookups that agree with a flat binding list (proved for KeyBindings itself, sampled for the "
+              "wrappers); CPython list/dict/generator semantics")
+RULE = ("E3: every filter expression built by <=2 (quick) / <=3 (thorough) applications of & | ~ over {c0,c1,True,False}, "
+        "each result evaluated under all assignments; E2: 14 wrapper nestings (conditional/merged/dynamic/global-only, "
+        "shared and duplicated children, empty merge) x every sequence of 3 (quick) / 4 (thorough) operations from "
+        "{add x3, remove by handler x2, remove by keys, retarget x2, lookups, flip}, with lookups/bindings/version "
+        "through the top wrapper before and after; E1: every ordered pair of bindings from a pattern pool over "
+        "{a,b,Any} (len<=3) x eager x filter, driven with every key string over {a,b} up to len 3 (quick) / 4 (thorough), "
+        "timeouts after all keys / after every key / after the first key, handlers optionally flipping the condition; "
+        "R1/R2: seeded random scenarios (nested wrappers, handlers that flip conditions, add/remove bindings, retarget, "
+        "feed keys, exit, raise, raise EditReadOnlyBuffer; CPR keys, is_done, reset, empty_queue). A case is "
+        "non-trivial when it contains at least one lookup, filter operator or process_keys call")
+EXHAUSTIVE = True
+EXHAUSTIVE_SCOPE = {
+    "quick": "E3 depth 2 over {c0,c1,True,False}; E2 14 structures x 10^3 op sequences; E1 28x28 binding pairs x 14 key strings x 2 timeout modes",
+    "thorough": "E3 depth 3 over {c0,c1,True}; E2 14 structures x 10^4 op sequences; E1 108x108 binding pairs x 30 key strings x 3 timeout modes + 12000 sampled triples/quadruples"}
+TRUSTED = ["harness/c04.py compares, after every operation, the printed structure of filters (incl. object identity of "
+           "memoised results), binding lists, versions, and for every process_keys call the sequence of queue pops, "
+           "before/after events, handler calls with key_sequence and previous_key_sequence, dropped keys, bell, raise, "
+           "and the key buffer / input queue / previous sequence afterwards",
+           "Ptk/Model/C04F.lean, C04KB.lean, C04.lean are hand translations of filters/base.py, key_bindings.py, "
+           "cache.py (SimpleCache) and key_processor.py (correspondence-checked)",
+           "a transparent proxy around the _process generator records what each send() consumed; dropped keys are "
+           "derived from the key buffer by object identity"]
+ASSUMPTIONS = ["filters are pure (Condition functions read switches and have no effects)",
+               "handlers do not re-enter process_keys, do not touch key_buffer directly and are scripted: flip "
+               "conditions, add/remove bindings, retarget dynamic wrappers, feed keys, exit, raise (the theorems hold "
+               "for arbitrary handler functions on the world and the queue)",
+               "a timeout is the _Flush key in the input queue (the asyncio timer of _start_timeout is not run)",
+               "CPython list mutation-while-iterating, dict and generator semantics"]
+PARTIAL_SCOPE = ["the dispatch theorem is relative to `Sound` lookups; soundness is proved for the KeyBindings registry "
+                 "(kb_lookups_reflect) and only sampled (correspondence E2/R + oracle) for nested wrappers",
+                 "_start_timeout's asyncio task, macro recording, save_before/undo, vi cursor fix-up, Readline arg, "
+                 "is_repeat and key aliases (_parse_key) are not modelled",
+                 "GlobalOnlyKeyBindings evaluates is_global() when it resynchronises: a switchable is_global filter is "
+                 "modelled as it is (stale until the next version change) and excluded from the oracle"]
 
 # model key number -> real key
 KEYMAP = {0: Keys.Any, 1: Keys.CPRResponse, 2: "a", 3: "b", 4: Keys.ControlX, 5: "c",
